@@ -364,10 +364,11 @@ Proof.
 Qed.
 
 Lemma raw_delitem_ok : forall s t name s' e, Inv s -> raw_delitem true s t name = (s', e) ->
-  Inv s' /\ stepm s s'.
+  Inv s' /\ stepm s s' /\ (forall e0, e = Some e0 -> s' = s).
 Proof.
   intros s t name s' e I H. unfold raw_delitem in H.
-  assert (TRIV : (s', e) = (s', e) -> s' = s -> Inv s' /\ stepm s s') by (intros _ ->; split; [auto | apply stepm_refl]).
+  assert (TRIV : (s', e) = (s', e) -> s' = s -> Inv s' /\ stepm s s' /\ (forall e0, e = Some e0 -> s' = s))
+    by (intros _ ->; split; [auto | split; [apply stepm_refl | auto]]).
   destruct (get s t) as [x|] eqn:Gt; [|inversion H; subst; auto]. apply get_Ok in Gt.
   destruct (kget name (kids x)) as [c|] eqn:Kg; [|inversion H; subst; auto].
   destruct (inval t s) as [s1|] eqn:E1; [|inversion H; subst; auto].
@@ -398,7 +399,7 @@ Proof.
   assert (Wp2 : wfp s2).
   { apply wfp_upd; [apply (I_wfp NH s1 I1')|]. intros z q Ez Hq. simpl in Hq. assert (z = y) by congruence. subst.
     eapply (I_wfp NH s1 I1'); eauto. eapply remove_first_incl; eauto. }
-  split; [|exists s1, t; split; auto; eapply mut_trans; eauto].
+  split; [|split; [exists s1, t; split; auto; eapply mut_trans; eauto | discriminate]].
   eapply (Inv_stepm_parts s s1 _ t); eauto.
   - eapply mut_trans; eauto.
   - apply wfk_upd; auto. intros z nm' k Ez Hk. simpl in Hk. unfold K1 in Hk. apply kdel_in in Hk.
@@ -518,18 +519,19 @@ Notation Inv := (Inv NH).
 
 Lemma update_many_ok : forall s p l s' e, Inv s ->
   NoDup (map fst l) -> (forall nm c, In (nm, c) l -> plain nm /\ c < length s) ->
-  update_many true s p l = (s', e) -> Inv s' /\ stepm s s'.
+  update_many true s p l = (s', e) -> Inv s' /\ stepm s s' /\ (forall e0, e = Some e0 -> s' = s).
 Proof.
   intros s p l s' e I ND HL H. unfold update_many in H.
-  assert (TRIV : s' = s -> Inv s' /\ stepm s s') by (intros ->; split; [auto | apply stepm_refl]).
+  assert (TRIV : s' = s -> Inv s' /\ stepm s s' /\ (forall e0, e = Some e0 -> s' = s))
+    by (intros ->; split; [auto | split; [apply stepm_refl | auto]]).
   destruct (get s p) as [x|] eqn:Gp; [|inversion H; subst; auto]. apply get_Ok in Gp.
-  assert (KD : kind x = KNode \/ kind x = KDir -> Inv s' /\ stepm s s' \/
+  assert (KD : kind x = KNode \/ kind x = KDir -> (Inv s' /\ stepm s s' /\ (forall e0, e = Some e0 -> s' = s)) \/
      (match l with [] => (s, None) | _ :: _ =>
         match inval p s with
         | Ok s1 => let (s2, o) := update_links true s1 p l in
             match o with Some e0 => (s2, Some e0)
             | None => (upd p (fun x0 => set_kids (fold_left (fun ks nc => kset (fst nc) (snd nc) ks) l (kids x0)) x0) s2, None) end
-        | Err e0 => (s, Some e0) end end) = (s', e) -> Inv s' /\ stepm s s').
+        | Err e0 => (s, Some e0) end end) = (s', e) -> Inv s' /\ stepm s s' /\ (forall e0, e = Some e0 -> s' = s)).
   { intros Kd [Done|H']; auto. clear H.
     destruct l as [|it l0]; [inversion H'; subst; auto|]. remember (it :: l0) as l.
     pose proof (nth_lt _ _ _ Gp) as Lp.
@@ -554,7 +556,7 @@ Proof.
       rewrite EQ.
       assert (M3 : mut p s2 (upd p (set_kids Kf) s2)).
       { apply mut_upd; [intro; unfold nmut; simpl; repeat split; reflexivity | congruence]. }
-      split; [|exists s1, p; split; auto; eapply mut_trans; eauto].
+      split; [|split; [exists s1, p; split; auto; eapply mut_trans; eauto | discriminate]].
       eapply (Inv_stepm_parts NH s s1 _ p); eauto.
       + eapply mut_trans; eauto.
       + apply wfk_upd; auto. intros z nm k Ez Hk. simpl in Hk. eapply HK2; eauto.
@@ -578,10 +580,12 @@ Proof.
   destruct (dir_value_checks s k2 c); [|discriminate]. simpl in H. eapply raw_setitem_ok; eauto.
 Qed.
 
-Lemma delitem_ok : forall s p key s' e, Inv s -> delitem true s p key = (s', e) -> Inv s' /\ stepm s s'.
+Lemma delitem_ok : forall s p key s' e, Inv s -> delitem true s p key = (s', e) ->
+  Inv s' /\ stepm s s' /\ (forall e0, e = Some e0 -> s' = s).
 Proof.
   intros s p key s' e I H. unfold delitem in H.
-  assert (TRIV : s' = s -> Inv s' /\ stepm s s') by (intros ->; split; [auto | apply stepm_refl]).
+  assert (TRIV : s' = s -> Inv s' /\ stepm s s' /\ (forall e0, e = Some e0 -> s' = s))
+    by (intros ->; split; [auto | split; [apply stepm_refl | auto]]).
   destruct (get s p) as [x|]; [|inversion H; subst; auto].
   destruct (kind x); try (inversion H; subst; auto; fail); try (eapply raw_delitem_ok; eauto; fail).
   destruct (rsplit1 key) as [k1 [k2|]]; try (eapply raw_delitem_ok; eauto; fail).
